@@ -91,6 +91,147 @@ theorem pow_sub_pow_le (a b : Rat) (ha0 : 0 ≤ a) (ha1 : a ≤ 1) (hb0 : 0 ≤ 
           · exact mul_le_mul_of_nonneg_left hbk (abs_nonneg _)
       _ ≤ (↑(k + 1) : Rat) * |a - b| := by push_cast; nlinarith [abs_nonneg (a - b)]
 
+/-- `|a^m - b^m| ≤ m M^(m-1) |a - b|` for `a, b ∈ [0, M]` (the sharp form of `pow_sub_pow_le`) -/
+theorem pow_sub_pow_le_of_le (a b M : Rat) (ha0 : 0 ≤ a) (haM : a ≤ M) (hb0 : 0 ≤ b) (hbM : b ≤ M) (m : Nat) :
+    |a ^ m - b ^ m| ≤ m * M ^ (m - 1) * |a - b| := by
+  have hM0 : 0 ≤ M := le_trans ha0 haM
+  induction m with
+  | zero => simp
+  | succ k ih =>
+    have e : a ^ (k + 1) - b ^ (k + 1) = a * (a ^ k - b ^ k) + (a - b) * b ^ k := by ring
+    have hbk : b ^ k ≤ M ^ k := pow_le_pow_left₀ hb0 hbM k
+    have hbk0 : 0 ≤ b ^ k := pow_nonneg hb0 k
+    have hab : 0 ≤ |a - b| := abs_nonneg _
+    have hstep : M * (↑k * M ^ (k - 1)) ≤ ↑k * M ^ k := by
+      cases k with
+      | zero => simp
+      | succ j => simp only [Nat.add_sub_cancel]; rw [pow_succ]; apply le_of_eq; ring
+    calc |a ^ (k + 1) - b ^ (k + 1)| = |a * (a ^ k - b ^ k) + (a - b) * b ^ k| := by rw [e]
+      _ ≤ |a * (a ^ k - b ^ k)| + |(a - b) * b ^ k| := abs_add_le _ _
+      _ = a * |a ^ k - b ^ k| + |a - b| * b ^ k := by rw [abs_mul, abs_mul, abs_of_nonneg ha0, abs_of_nonneg hbk0]
+      _ ≤ M * (↑k * M ^ (k - 1) * |a - b|) + |a - b| * M ^ k := by
+          apply add_le_add
+          · exact mul_le_mul haM ih (abs_nonneg _) hM0
+          · exact mul_le_mul_of_nonneg_left hbk hab
+      _ = (M * (↑k * M ^ (k - 1))) * |a - b| + |a - b| * M ^ k := by ring
+      _ ≤ (↑k * M ^ k) * |a - b| + |a - b| * M ^ k := by
+          have := mul_le_mul_of_nonneg_right hstep hab
+          linarith
+      _ = (↑(k + 1) : Rat) * M ^ (k + 1 - 1) * |a - b| := by
+          simp only [Nat.add_sub_cancel]; push_cast; ring
+
+/-! ### linearity of `np.dot(W, ·)` and the residual of the vector `power_method` RETURNS -/
+
+theorem dot_vsub (row a b : List Rat) (h : a.length = b.length) : dot row (vsub a b) = dot row a - dot row b := by
+  induction row generalizing a b with
+  | nil => simp [dot]
+  | cons r t ih =>
+    cases a with
+    | nil => cases b with
+      | nil => simp [dot, vsub]
+      | cons _ _ => simp at h
+    | cons x xs =>
+      cases b with
+      | nil => simp at h
+      | cons y ys =>
+        have := ih xs ys (by simpa using h)
+        simp only [dot, vsub, List.zipWith_cons_cons, List.zip_cons_cons, List.map_cons, List.sum_cons] at this ⊢
+        rw [this]; ring
+
+theorem matVec_vsub (W : List (List Rat)) (a b : List Rat) (h : a.length = b.length) :
+    matVec W (vsub a b) = vsub (matVec W a) (matVec W b) := by
+  induction W with
+  | nil => simp [matVec, vsub]
+  | cons row t ih =>
+    have hd := dot_vsub row a b h
+    simp only [matVec, vsub, List.map_cons, List.zipWith_cons_cons] at ih hd ⊢
+    rw [hd, ih]
+
+theorem scale_cecStep (W : List (List Rat)) (c : Rat) (x : List Rat) (hc : c ≠ 0) :
+    (cecStep W c x).map (c * ·) = matVec W x := by
+  rw [cecStep, List.map_map]
+  conv => rhs; rw [← List.map_id (matVec W x)]
+  apply List.map_congr_left
+  intro a _
+  simp only [Function.comp, id]
+  field_simp
+
+/-! ### the two loops: a larger budget does not change a run that was left by its test -/
+
+theorem pmLoop_stable {X : Type} (body : X → X × Rat) (tol : Rat) (K : Nat) (res : Option Rat) (x : X)
+    (h : (pmLoop body tol K res x).2 < K) (K' : Nat) (hK : K ≤ K') :
+    pmLoop body tol K' res x = pmLoop body tol K res x := by
+  induction K generalizing res x K' with
+  | zero => simp at h
+  | succ k ih =>
+    obtain ⟨k', rfl⟩ : ∃ k', K' = k' + 1 := ⟨K' - 1, by omega⟩
+    unfold pmLoop at h ⊢
+    by_cases hg : pmGoOn res tol = true
+    · simp only [hg, if_true] at h ⊢
+      have h' : (pmLoop body tol k (some (body x).2) (body x).1).2 < k := by omega
+      rw [ih _ _ h' k' (by omega)]
+    · simp only [hg] at h ⊢
+      simp
+
+/-- a run left by its test: either no pass was made (the test failed at once) or the result is the image of an
+iterate `xp` whose pass produced a residual that fails `res > tol` -/
+theorem pmLoop_left {X : Type} (body : X → X × Rat) (tol : Rat) (K : Nat) (res : Option Rat) (x : X)
+    (h : (pmLoop body tol K res x).2 < K) :
+    (pmGoOn res tol = false ∧ pmLoop body tol K res x = (x, 0)) ∨
+    ∃ xp, (body xp).1 = (pmLoop body tol K res x).1 ∧ pmGoOn (some (body xp).2) tol = false := by
+  induction K generalizing res x with
+  | zero => simp at h
+  | succ k ih =>
+    unfold pmLoop at h ⊢
+    by_cases hg : pmGoOn res tol = true
+    · simp only [hg, if_true] at h ⊢
+      have h' : (pmLoop body tol k (some (body x).2) (body x).1).2 < k := by omega
+      right
+      rcases ih _ _ h' with ⟨hstop, heq⟩ | ⟨xp, h1, h2⟩
+      · exact ⟨x, by rw [heq], hstop⟩
+      · exact ⟨xp, h1, h2⟩
+    · left
+      simp only [Bool.not_eq_true] at hg
+      exact ⟨hg, by simp [hg]⟩
+
+theorem hecLoop_stable {X : Type} (step : X → X) (dist : X → X → Rat) (tol : Rat) (K : Nat) (x : X)
+    (h : (hecLoop step dist tol K x).2.2 = true) (K' : Nat) (hK : K ≤ K') :
+    hecLoop step dist tol K' x = hecLoop step dist tol K x := by
+  induction K generalizing x K' with
+  | zero => simp [hecLoop] at h
+  | succ k ih =>
+    obtain ⟨k', rfl⟩ : ∃ k', K' = k' + 1 := ⟨K' - 1, by omega⟩
+    unfold hecLoop at h ⊢
+    by_cases hd : dist x (step x) ≤ tol
+    · simp only [hd, if_true]
+    · simp only [hd, if_false] at h ⊢
+      rw [ih _ h k' (by omega)]
+
+/-- a run left by the `break`: the returned iterate passes the stopping test -/
+theorem hecLoop_left {X : Type} (step : X → X) (dist : X → X → Rat) (tol : Rat) (K : Nat) (x : X)
+    (h : (hecLoop step dist tol K x).2.2 = true) :
+    dist (hecLoop step dist tol K x).1 (step (hecLoop step dist tol K x).1) ≤ tol := by
+  induction K generalizing x with
+  | zero => simp [hecLoop] at h
+  | succ k ih =>
+    unfold hecLoop at h ⊢
+    by_cases hd : dist x (step x) ≤ tol
+    · simp only [hd, if_true]
+    · simp only [hd, if_false] at h ⊢
+      exact ih _ h
+
+theorem hecLoop_passes_le {X : Type} (step : X → X) (dist : X → X → Rat) (tol : Rat) (K : Nat) (x : X) :
+    (hecLoop step dist tol K x).2.1 ≤ K := by
+  induction K generalizing x with
+  | zero => simp [hecLoop]
+  | succ k ih =>
+    unfold hecLoop
+    by_cases hd : dist x (step x) ≤ tol
+    · simp only [hd, if_true]; omega
+    · simp only [hd, if_false]
+      have := ih (step x)
+      omega
+
 /-! ### `apply` is the sum over the hyperedges of a node of the product of the other members -/
 
 theorem length_addAt (v : List Rat) (i : Nat) (d : Rat) : (addAt v i d).length = v.length := by
